@@ -203,4 +203,30 @@ PROPS = {
                       "the option extractor (go/ast) and the classification in Stream/OptionsBaseline.v"],
         assumptions=["diagnostic options (statistics printing) and allocator/observer plumbing are not content options", "cardinalities crossing 65,535 are exercised in the thorough tier only"],
     ),
+    "C15": dict(
+        runs=[
+            dict(harness="codec", name="genssa", phase="gen", args=lambda tier, seed, casedir, coq: ["genssa", "--out", casedir], timeout=1200),
+            dict(harness="codec", name="memory",
+                 args=lambda tier, seed, casedir, coq: ["memory", "--n", str(q(tier, 150, 3000)), "--seed", str(seed)], timeout=3000),
+        ],
+        rule="genssa: every call of a pdata mutator method (Set*, Put*, Remove*, MoveTo, MoveAndAppendTo, AppendEmpty, EnsureCapacity, FromRaw, Clear, CopyTo, Sort) in the encoder-side packages, found on the "
+             "type-checked syntax of the current source (must be none); memory: histories of 1-6 batches (one signal or interleaved; options default / no zstd / no dictionary / 8-bit limit overflow and reset; "
+             "dictionary-pressure batches; a 65537-span batch refused with an error in the middle of some histories) on a producer given a memory.CheckedAllocator: proto bytes of every input before and after "
+             "encoding must be equal and the allocator must be back to 0 bytes after Close",
+        trusted_base=["arrow-go builders/records/IPC writers release what they allocated when released/closed (library contract; the balance is measured on every run)",
+                      "the typed-syntax extractor (go/packages)"],
+        assumptions=["write errors of the IPC writer are not reachable with valid input (the ledger shows later records would stay unreleased in that case)"],
+    ),
+    "C16": dict(
+        runs=[
+            dict(harness="codec", name="genssa", phase="gen", args=lambda tier, seed, casedir, coq: ["genssa", "--out", casedir], timeout=1200),
+            dict(harness="codec", name="indep",
+                 args=lambda tier, seed, casedir, coq: ["indep", "--n", str(q(tier, 25, 600)), "--seed", str(seed)], timeout=3000),
+        ],
+        rule="genssa: every Store / MapUpdate whose address derives from a package-level variable, outside package initialisation, in the SSA form of everything reachable from pkg/otel/arrow_record "
+             "(must be within the protobuf-registration whitelist); indep: 2-8 producer/consumer pairs with different options and histories run concurrently in goroutines, each stream's decoded output "
+             "compared with the output of the same stream run alone",
+        trusted_base=["data-race freedom is outside the model (Go memory model); the go/ssa extractor", "instances share no state by construction (each NewProducer/NewConsumer builds its own builders, allocators, maps)"],
+        assumptions=["-race runs are supporting evidence in the thorough tier only"],
+    ),
 }
